@@ -155,8 +155,18 @@ Qed.
 
 (* ------------------------------------------------------------------ *)
 (* the rows of the aggregation stage *)
-Theorem agg_ok_reading c gv a :
+Theorem agg_ok_cases c gv a :
   c_group c = Some gv -> agg_ok c a = true ->
+  (gv <> [] /\ c_input c = [] /\ (a = [] \/ a = [[]])) \/ agg_ok_groups c gv a = true.
+Proof.
+  intros Hg H. unfold agg_ok in H. rewrite Hg in H. destruct gv as [|g0 gv']; [auto|].
+  destruct (c_input c) eqn:Ei; [|auto]. left. split; [discriminate|]. split; [reflexivity|].
+  apply orb_true_iff in H. destruct H as [H|H]; [left|right];
+    match goal with H : rows_eqb ?x ?y = true |- _ => destruct (rows_eqb_spec x y); congruence end.
+Qed.
+
+Theorem agg_ok_reading c gv a :
+  agg_ok_groups c gv a = true ->
   let input := c_input c in
   NoDup (map (key_of gv) a)
   /\ (forall k, In k (map (key_of gv) a) <->
@@ -167,7 +177,8 @@ Theorem agg_ok_reading c gv a :
         /\ forall v s, In (v, s) (c_aggs c) ->
              agg_adm s (members gv (key_of gv row) input) (lookup v row) = true).
 Proof.
-  intros Hg H. unfold agg_ok in H. rewrite Hg in H.
+  intros H. unfold agg_ok_groups in H.
+
   repeat (apply andb_true_iff in H; destruct H as [H ?]).
   rename H into Hnd, H2 into Hsub1, H1 into Hsub2, H0 into Hrows. simpl.
   apply (nodupb_spec _ gkey_eqb_spec) in Hnd. split; [exact Hnd|].
@@ -192,8 +203,8 @@ Qed.
 
 (* HAVING keeps exactly the groups whose condition holds *)
 Theorem having_reading c gv a k :
-  c_group c = Some gv -> agg_ok c a = true ->
+  agg_ok_groups c gv a = true ->
   In k (map (key_of gv) a) -> having_holds (c_having c) (members gv k (c_input c)) = true.
 Proof.
-  intros Hg H Hk. destruct (agg_ok_reading c gv a Hg H) as [_ [Hkeys _]]. now apply Hkeys.
+  intros H Hk. destruct (agg_ok_reading c gv a H) as [_ [Hkeys _]]. now apply Hkeys.
 Qed.
